@@ -1,6 +1,6 @@
 #!/usr/bin/env bash
 # tools/run-all.sh [quick|thorough] – run every claimed check once, print one line per check, validate evidence.
-cd /verif
+cd "$(dirname "$0")/.." || exit 2
 tier="${1:-quick}"
 ./check --build || exit 2
 fail=0
